@@ -45,6 +45,21 @@ type Property struct {
 	Rule  string
 }
 
+// expectedProbes are the rare conditions a check wants to have reached; they start at 0 so that a
+// probe that never fires is visible in the evidence (probes_at_zero).
+var expectedProbes = map[string][]string{
+	"C01": {"program.nesting_depth_3", "program.jump_inside_nested_body", "program.options_end_a_body", "world.nodes_over_several_readers", "world.command_polled_while_pending", "world.hub_loop"},
+	"C03": {"world_with_failing_statement", "world_with_host_write"},
+	"C06": {"fault_requiring_error", "fault_with_open_outcome"},
+	"C07": {"receiver.FRESH", "receiver.READY", "receiver.CHOOSING", "receiver.PENDING", "receiver.ENDED", "receiver.sibling_path", "receiver.restored_before", "two_receivers_of_one_snapshot"},
+	"C10": {"shape.raw_prefilled", "shape.raw_buffered", "shape.raw_unbuffered", "shape.conv_none", "shape.conv_error", "shape.conv_chan", "shape.conv_rochan", "wait_polled_one_tick_before_deadline", "command_error_surfaced"},
+	"C11": {"node_left_three_times", "untracked_node_visited", "restore_then_jump"},
+	"C12": {"ended_by_stop_or_node_end", "end_with_statements_still_queued", "post_end_call_with_out_of_range_argument"},
+	"C14": {"history_with_failed_parse_in_the_middle"},
+	"C18": {"burst_inside_storer_read", "burst_inside_host_function", "burst_inside_command_handler", "runner_created_between_steps_of_another"},
+	"C20": {"queue_grew_while_wrapped", "queue_grew_while_wrapped_twice", "stream_with_more_than_8_indents"},
+}
+
 var registry = map[string]*Property{}
 
 func register(p *Property) { registry[p.ID] = p }
@@ -229,6 +244,11 @@ func TestSim(t *testing.T) {
 	start := time.Now()
 	env := &Env{Tier: *fTier, VerifSeed: *fSeed, Shard: *fShard, NShards: *fNShards, St: newStats(), Thorough: *fTier == "thorough"}
 	res := &shardResult{Property: prop.ID, Tier: *fTier, Seed: *fSeed, Shard: *fShard, GoMaxProcs: runtime.GOMAXPROCS(0)}
+	if *fMode == "" {
+		for _, p := range expectedProbes[prop.ID] {
+			env.St.Counters["probe."+p] = 0
+		}
+	}
 
 	finish := func() {
 		res.Worlds = env.St.Counters["worlds"]
